@@ -19,4 +19,7 @@ generate, project, oracle, nontrivial, stats = _world.make(
         # histories in which lifecycle callbacks raise half-way through an operation
         dict(n_comp=(2, 5), n_proc=(0, 1), handlers=0.8, raises=0.8, dup_in_create=0.3,
              w=dict(addproc=0.3, rmproc=0, dispatch=0, enable=0.5, delete=5, process=3, create=5)),
+        # callbacks that call back into the same world (nested add / remove / delete / create / processors)
+        dict(n_comp=(2, 5), n_proc=(0, 2), handlers=0.9, reenter=0.95,
+             w=dict(addproc=1, rmproc=0.5, dispatch=0.3, enable=0.3, delete=4, process=3, create=5, remove=4)),
     ])
